@@ -12,6 +12,7 @@ def run(tier, seed):
              'tightened the bounds; a returned constant must be entailed in every model (Fourier-Motzkin), a returned literal '
              'is given its relation as meaning and every later value, bound, learnt clause and answer is judged against it; a '
              'request never changes the set of models; distinct_nontrivial = distinct executions with a relation request',
+        release_too=True,
         assumptions=['at most 6 theory atoms and 5 arithmetic variables per execution'])
 
 
